@@ -275,6 +275,10 @@ def e3w_jobs(ctx, spec, cfg, bs, m, maxnul=1, witness=True, timeout=900, mem_mb=
             fh.write(H.e3w_harness(g, cfg, spec, bs, m, maxnul=maxnul, witness=w, interactive_check=interactive_check, more=more))
         b = scanner_bounds(g, n, maxnul, refills=m)
         b.update({'move': n + 2, 'grow': 4, 'goto_match': maxnul + m + 1, 'match': n + 3, 'prevstate': n + 2})
+        # per arm of the end-of-buffer case: every refill that delivers bytes continues the scan once (<= m),
+        # every NUL of the stream takes one NUL arm once, the last match is taken at most once
+        b.update({'goto_match_cont': m + 1, 'goto_match_nul': maxnul + 1, 'goto_find_action_nul': maxnul + 1,
+                  'goto_find_action_last': 2})
         j = cbmc.Job('e3w%s_%s_%s_b%d_m%d%s' % ('more' if more else '', spec.name, cfg.name, bs, m, '_w' if w else ''), wd, [src], b,
                      includes=[wd, H.HDIR], harness_bound=None, timeout=timeout, mem_mb=mem_mb, gen_file=g.cpath,
                      expect='witness' if w else 'proved',
